@@ -64,7 +64,12 @@ FILE_FAULTS = {
     "list_of_scalars": ("json", "[1, 2]", None),
     "list_with_one_scalar": ("json", '[{"id": 7, "name": "z"}, 3]', None),
     "list_with_null": ("json", '[{"id": 7, "name": "z"}, null]', None),
-    "yaml_multi_document": ("yaml", "id: 1\nname: a\n---\nid: 2\nname: b\n", None),
+    # a YAML stream whose root is null: nothing an object or list could be selected from
+    "yaml_empty_file": ("yaml", "", None),
+    "yaml_only_separator": ("yaml", "---\n", None),
+    "yaml_comment_only": ("yaml", "# nothing here\n", None),
+    "yaml_explicit_null": ("yaml", "~\n", None),
+    "yaml_null_under_lookup": ("yaml", "d:\n  items: ~\n", "d.items"),
     "yaml_duplicate_key": ("yaml", "id: 1\nid: 2\nname: a\n", None),
     "ini_duplicate_section": ("ini", "[s1]\nk = v\n[s1]\nk = w\n", None),
     "json_trailing_garbage": ("json", '{"id": 1, "name": "a"} trailing', None),
